@@ -49,18 +49,8 @@ def run(chk):
 
 
 def replay(chk, path):
-    obj = json.load(open(path))
-    sess = obj["replay"]["session"]
-    tp = chk.path("replay.ndjson")
-    with open(tp, "w") as f:
-        f.write(json.dumps({"ev": "Config", "features": features_from_cargo()}) + "\n")
-        for e in sess:
-            f.write(json.dumps(e) + "\n")
-    r = tv("Trace_Decode", "Trace_Decode.cfg", tp, reset_events=("Decode",), prefix_events=("Config",), shards=1, tag="C14-replay")
-    if r["rejects"]:
-        print("VIOLATION property=C14 replay=%s" % path)
-        return 1
-    return 0
+    return replay_session(chk, path, "Trace_Decode", "Trace_Decode.cfg", reset_events=("Decode",),
+                          prefix={"ev": "Config", "features": features_from_cargo()}, prefix_events=("Config",))
 
 
 def selftest(chk):
